@@ -332,6 +332,7 @@ SetItem(h, c, key, v) ==
     ELSE IF sc = "type" THEN R(h, TypeErr)
     ELSE LET k2 == KeyCast(h, c, key) IN
          IF KeyCastFailed(k2) THEN R(h, k2)
+         ELSE IF HasNoCopy(h, v) THEN R(h, TypeErr)
          ELSE LET cp == DeepCopy(h, v)
                   st == NativeSetItem(cp.h, c, k2, cp.v) IN
               IF IsVal(st.r) THEN R(st.h, v) ELSE R(h, st.r)
@@ -360,6 +361,7 @@ SetItemWithOp(h, c, key, op, v) ==
     ELSE IF sc = "type" THEN R(h, TypeErr)
     ELSE LET k2 == KeyCast(h, c, key) IN
          IF KeyCastFailed(k2) THEN R(h, k2)
+         ELSE IF HasNoCopy(h, v) THEN R(h, TypeErr)
          ELSE LET cp == DeepCopy(h, v) IN
               IF op.t # "str" \/ ~(op.s \in {<<43, 61>>, <<45, 61>>, <<42, 61>>, <<47, 61>>}) THEN R(cp.h, ParserErr)
               ELSE LET opn == CASE op.s = <<43, 61>> -> "+=" [] op.s = <<45, 61>> -> "-=" [] op.s = <<42, 61>> -> "*=" [] OTHER -> "/="
